@@ -174,6 +174,10 @@ def _cases_O(tier):
             for sp in range(4):
                 for level in ("module", "class"):
                     yield ("O", "".join(seq), sp, level, "")
+            if n <= 3:
+                # the same definitions LOCAL to __init__ (whose body the visitor walks for instance attributes): nothing may raise, the
+                # signatures of the class's real methods are reported as CPython sees them
+                yield ("O", "".join(seq), 1, "init-body", "")
             # the overload decorator combined with another one written below / above it
             if n <= 3:
                 for level in ("module", "class"):
@@ -366,6 +370,29 @@ def _run_L(griffe, acc, case):
 def _run_O(griffe, acc, case):
     _, seq, sp, level, extra = case
     imp, deco = SPELL[sp]
+    if level == "init-body":
+        body = []
+        for i, ch in enumerate(seq):
+            name = "f" if ch in "OI" else "g"
+            if ch in "OG":
+                body.append(f"        {deco}")
+            body.append(f"        def {name}(p{i}): ...")
+        src = imp + "\nclass K:\n    def __init__(self, a, /, b=1, *, c=2):\n" + "\n".join(body) + "\n        self.v = a\n    def after(self, z, *args, k=None, **kw): ...\n"
+        ns: dict = {}
+        exec(src, ns)  # noqa: S102
+        try:
+            mod = _visit(griffe, src)
+        except Exception as e:  # noqa: BLE001
+            acc.violation(f"overload/init-body/raise-{type(e).__name__}", f"visiting a class whose __init__ defines local (overloaded) functions raised {e!r}", case, {"src": src})
+            acc.case({"src": src}, outcome="overloads:init-body:raise", nontrivial=True)
+            return
+        for meth in ("__init__", "after"):
+            want = list(inspect.signature(getattr(ns["K"], meth)).parameters)
+            got = [p.name for p in mod["K"].members[meth].parameters] if meth in mod["K"].members else None
+            if got != want:
+                acc.violation("overload/init-body/signature", f"K.{meth}: parameters {got}, CPython {want}", case, {"src": src})
+        acc.case({"src": src}, outcome="overloads:init-body", nontrivial=len(seq) >= 2)
+        return
     ind = "    " if level == "class" else ""
     lines = [imp, "def other_deco(f): return f"]
     second = "@staticmethod" if level == "class" else "@other_deco"
